@@ -456,9 +456,9 @@ def run(ctx):
     ctx.rule('R02.7', 'every exactly resolved call binds against its callee\'s signature (no missing/unknown/surplus argument on any arm)', floor=4)
     _run_base(ctx)
     from ..signatures import call_compat
-    call_compat(ctx, 'R02.7', ['nbdime.diffing.generic', 'nbdime.diffing.seq', 'nbdime.diffing.sequences', 'nbdime.diffing.snakes', 'nbdime.diffing.lcs', 'nbdime.patching', 'nbdime.diff_utils', 'nbdime.diff_format'], 'the generic diff/patch aborts for the documents that reach this arm')
+    call_compat(ctx, 'R02.7', ['nbdime.diffing.generic', 'nbdime.diffing.seq', 'nbdime.diffing.sequences', 'nbdime.diffing.snakes', 'nbdime.diffing.lcs', 'nbdime.patching', 'nbdime.diff_utils', 'nbdime.diff_format'] if ctx.tier == 'quick' else ['nbdime.'], 'the generic diff/patch aborts for the documents that reach this arm')
     from ..names import name_binding
-    name_binding(ctx, 'R02.8', ['nbdime.diffing.generic', 'nbdime.diffing.seq', 'nbdime.diffing.sequences', 'nbdime.diffing.snakes', 'nbdime.diffing.lcs', 'nbdime.patching', 'nbdime.diff_utils', 'nbdime.diff_format'])
+    name_binding(ctx, 'R02.8', ['nbdime.diffing.generic', 'nbdime.diffing.seq', 'nbdime.diffing.sequences', 'nbdime.diffing.snakes', 'nbdime.diffing.lcs', 'nbdime.patching', 'nbdime.diff_utils', 'nbdime.diff_format'] if ctx.tier == 'quick' else ['nbdime.'])
     from ..opfields import check_op_fields
     check_op_fields(ctx, 'R02.9', ['nbdime.diffing.generic', 'nbdime.diffing.seq', 'nbdime.diffing.sequences', 'nbdime.diffing.snakes', 'nbdime.diffing.lcs', 'nbdime.patching', 'nbdime.diff_utils', 'nbdime.diff_format'])
     tables_do_not_insert_on_lookup(ctx, 'R02.10')
